@@ -473,6 +473,11 @@ impl StreamInfo {
         channels: usize,
         bits_per_sample: usize,
     ) -> Result<Self, VerifyError> {
+        // range-check before the narrowing casts below: a value such as 258 channels
+        // must not be silently reinterpreted as 2.
+        verify_range!("sample_rate", sample_rate, ..=96_000)?;
+        verify_range!("channels", channels, 1..=8)?;
+        verify_range!("bits_per_sample", bits_per_sample, ..=(u8::MAX as usize))?;
         let ret = Self {
             min_block_size: u16::MAX,
             max_block_size: 0,
